@@ -346,3 +346,15 @@ func (f *Finding) JSON() string {
 	b, _ := json.MarshalIndent(f, "", " ")
 	return string(b)
 }
+
+// RunDefault runs body once under the default schedule (no deviation, first
+// alternative at every free choice) and returns the outcome. Sequential (E2)
+// harnesses use it to drive a whole run or a trigger in virtual time.
+func RunDefault(body func(), horizon time.Duration, maxSteps uint64) *Outcome {
+	if maxSteps == 0 {
+		maxSteps = 200000
+	}
+	e := &Explorer{Name: "default-schedule", MaxSteps: maxSteps, Horizon: int64(horizon), EarlyWindow: int64(2 * time.Second), SelectFairness: 3, Body: body}
+	x := e.runOnce(nil, false)
+	return &x.out
+}
